@@ -79,6 +79,35 @@ func c06Judge(k c06Case) *vlib.Failure {
 			return vlib.Failf("Config() still changes after one round trip: %+v then %+v", *chain[1], *chain[i])
 		}
 	}
+	// (iv) Config() always describes the current state, whatever was asked before: via passthrough and via another
+	// configuration, then back
+	stable := chain[len(chain)-1]
+	if err := m1.Reconfigure(nil); err != nil {
+		return vlib.Failf("Reconfigure(nil) fails: %v", err)
+	}
+	if c := m1.Config(); c != nil {
+		return vlib.Failf("Config() of a middleware that was just made passthrough is %+v, want nil", *c)
+	}
+	if err := m1.Reconfigure(m1.Config()); err != nil || m1.Config() != nil {
+		return vlib.Failf("Reconfigure(Config()) on a passthrough middleware: err=%v, Config()=%v (want nil, nil)", err, m1.Config())
+	}
+	other := routeOther.Config()
+	if err := m1.Reconfigure(&other); err != nil {
+		return vlib.Failf("auxiliary configuration rejected: %v", err)
+	}
+	mo, _ := cors.NewMiddleware(routeOther.Config())
+	if mo != nil && !cfgEqual(m1.Config(), mo.Config()) {
+		return vlib.Failf("after Reconfigure to another configuration Config() = %+v, a fresh middleware for it says %+v", *m1.Config(), *mo.Config())
+	}
+	if err := m1.Reconfigure(stable); err != nil {
+		return vlib.Failf("Reconfigure with an earlier Config() result fails: %v", err)
+	}
+	if i := firstDiff(want, observeBoth(m1, suite)); i >= 0 {
+		return vlib.Failf("after passthrough, another configuration and back (using an earlier Config() result) request #%d (%s, debug=%t) is answered differently", i%len(suite), suite[i%len(suite)], i >= len(suite))
+	}
+	if !cfgEqual(stable, m1.Config()) {
+		return vlib.Failf("Config() after coming back is %+v, before it was %+v", *m1.Config(), *stable)
+	}
 	return nil
 }
 
@@ -104,7 +133,8 @@ func c06Family(c *vlib.Ctx) []CfgLit {
 	oatoms := []string{"https://a.b", "https://*.a.b", "https://a.b:*", "https://*.a.b:*", "https://c.a.b", "https://*.b", "http://1.2.3.4", "http://127.0.0.1:8080",
 		"http://[::1]", "http://[::1]:9090", "http://[2001:db8::1]:*", "https://a.b.", "*", "https://a.b:8443",
 		// IPv6 literals whose texts share tails that end inside a hextet (radix fragments without a colon)
-		"http://[fe80::1]", "http://[fd80::1]:9090", "http://[1:db8::1]:*", "http://[::21]", "http://[1::1]", "http://xa.b", "https://*.xa.b"}
+		"http://[fe80::1]", "http://[fd80::1]:9090", "http://[1:db8::1]:*", "http://[::21]", "http://[1::1]", "http://xa.b", "https://*.xa.b",
+		"https://xn--bcher-kva.example:49152", "app+v1.0://host-1.internal:10000", "https://*.host-1.internal:*"}
 	olists := lists(oatoms, vlib.Pick(c, 2, 3))[1:]
 	var out []CfgLit
 	// A: every origin list in four contexts
@@ -116,12 +146,12 @@ func c06Family(c *vlib.Ctx) []CfgLit {
 			CfgLit{Origins: ol, TolPSL: true, Methods: []string{"*"}, RequestHeaders: []string{"*"}, ResponseHeaders: []string{"*"}, MaxAge: -1, Status: 200})
 	}
 	// B: a few origin lists x the product of all other fields
-	ob := [][]string{{"https://a.b", "https://*.c.d:*"}, {"*"}, {"http://[::1]:9090", "http://e.f"}}
-	ms := [][]string{nil, {"GET", "POST"}, {"put", "PATCH"}, {"*"}, {"*", "PUT"}}
-	qs := [][]string{nil, {"X-B", "x-a"}, {"*"}, {"*", "Authorization"}, {"Authorization", "*"}, {"Authorization"}}
-	rs := [][]string{nil, {"Content-Type", "Expires"}, {"X-R", "x-q"}, {"*"}, {"*", "X-R"}}
-	ages := vlib.Pick(c, []int{-1, 0, 30}, []int{-1, 0, 1, 86400})
-	sts := vlib.Pick(c, []int{0, 200}, []int{0, 200, 204, 299})
+	ob := [][]string{{"https://a.b", "https://*.c.d:*"}, {"*"}, {"http://[::1]:9090", "http://e.f"}, richOrigins}
+	ms := [][]string{nil, {"GET", "POST"}, {"put", "PATCH"}, {"*"}, {"*", "PUT"}, richMethods}
+	qs := [][]string{nil, {"X-B", "x-a"}, {"*"}, {"*", "Authorization"}, {"Authorization", "*"}, {"Authorization"}, richReqHdrs}
+	rs := [][]string{nil, {"Content-Type", "Expires"}, {"X-R", "x-q"}, {"*"}, {"*", "X-R"}, richResHdrs}
+	ages := vlib.Pick(c, []int{-1, 0, 600}, []int{-1, 0, 1, 600, 86400})
+	sts := vlib.Pick(c, []int{0, 201}, []int{0, 200, 201, 204, 299})
 	for _, o := range ob {
 		for _, m := range ms {
 			for _, q := range qs {
@@ -133,6 +163,19 @@ func c06Family(c *vlib.Ctx) []CfgLit {
 									for _, tol := range []bool{false, true} {
 										if !tol && !c.Thorough() && (cred || pna > 0) {
 											continue
+										}
+										if !c.Thorough() {
+											// quick tier: the long realistic lists appear all together, or one at a time with
+											// the first max-age / status only
+											rich := 0
+											for _, l := range [][]string{o, m, q, r} {
+												if len(l) >= 5 {
+													rich++
+												}
+											}
+											if rich == 2 || rich == 3 || rich == 1 && (a != ages[0] || s != sts[0]) {
+												continue
+											}
 										}
 										out = append(out, CfgLit{Origins: o, Methods: m, RequestHeaders: q, ResponseHeaders: r, MaxAge: a, Status: s, Credentialed: cred, PNA: pna == 1, PNANoCORS: pna == 2, TolInsecure: tol, TolPSL: tol})
 									}
